@@ -3,6 +3,7 @@ mod act;
 mod common;
 mod engine;
 mod gen;
+mod livenet;
 mod netsess;
 mod props;
 mod targets;
